@@ -78,4 +78,30 @@ PROPS = {
         ],
         "probes_expected": {"quick": ["hostile-archive", "hostile-plugin-response"], "thorough": ["hostile-archive", "hostile-plugin-response"]},
     },
+    "C09": {
+        "engine": "cachesim",
+        "level": "fault_enumeration",
+        "runs": {"quick": 800, "thorough": 120000},
+        "max_wall_s": {"quick": 0, "thorough": 1500},
+        "shrink_s": {"quick": 60, "thorough": 400},
+        "recheck_every": 20,
+        "min_chunk": 8,
+        "rule": ("one evaluation = one simulated history of the module cache: 1-3 generated modules (b5, or b4 with v1 buf.yaml/buf.lock data), "
+                 "directory or tar layout, 1-3 epochs of 1-3 simulated buf processes each running a tape-drawn script of provide / store-get / "
+                 "store-put over ONE real cache directory and ONE lock table, interleaved at single bucket / lock / hook / registry operations, "
+                 "with tape-drawn I/O faults, lock errors, stalls, registry faults, process and machine crashes, and tampering between epochs; "
+                 "EVERY distinct disk state a run passes through is treated as a crash point: the directory is copied and a fresh store and "
+                 "provider must (O2) find only complete entries and (O3) repair everything; non-trivial = the scheduler had a real choice or a "
+                 "fault fired; distinct = distinct (released-operation sequence, fired-fault multiset); distinct crash states are counted separately"),
+        "real": ["bufmodulecache provider (base_provider)", "bufmodulestore.ModuleDataStore (directory and tar layouts)", "bufmodule.ModuleData incl. lazy digest check",
+                 "storage.Copy / PutPath / Map buckets", "storagearchive Tar/Untar", "storageos bucket on a real directory (tmpfs) incl. atomic writer", "thread.Parallelize"],
+        "stubbed": ["registry: in-memory OmniProvider behind a yielding, fault-injecting wrapper", "filelock.Locker: readers/writer lock table on the simulated clock (3 s timeout), locks dropped on simulated process death; real flock between real processes is not exercised",
+                    "process boundaries: a simulated process is a goroutine tree with its own provider, store, bucket wrapper and locker"],
+        "assumptions": COMMON_ASSUMPTIONS + [
+            "tampering happens only at quiescent points: lazy verification has by design no defence against modification between verification and use",
+            "a key is exempt from the repair oracles (not from the no-wrong-content oracle) once one of its cached files was tampered with while its marker stayed valid",
+        ],
+        "probes_expected": {"quick": ["lock-contended", "digest-mismatch-returned", "proc-crash", "machine-crash", "rename-err", "short-write", "tamper-flip", "registry-wrong-content"],
+                            "thorough": ["lock-contended", "lock-timeout", "digest-mismatch-returned", "proc-crash", "machine-crash", "rename-err", "short-write", "tamper-flip", "registry-wrong-content"]},
+    },
 }
